@@ -47,6 +47,19 @@ def SimOK (op : Op) (m : MState × Ans) (s : Abs × Ans) : Prop :=
 
 theorem sinkReport_nil : sinkReport [] = ([], none) := rfl
 
+/-- no vote refers to the root, on the specification side -/
+theorem refersTo_false (fc : FC) (a : Abs) (r : Ref fc a) (root : Root)
+    (h : ∀ v ∈ fc.votes, v.next.root ≠ root ∧ v.cur.root ≠ root) : a.refersTo root = false := by
+  unfold Abs.refersTo
+  rw [r.votes]
+  rw [List.any_eq_false]
+  intro x hx
+  obtain ⟨v, hv, rfl⟩ := List.mem_map.mp hx
+  unfold absVote
+  by_cases hz : v.next = NodeRef.zero
+  · simp [hz]
+  · simp [hz]; exact (h v hv).1
+
 /-- `InSubtree` of the specification, read off the model's maps -/
 theorem spec_inSub_eq (fc : FC) (a : Abs) (I : FI fc) (r : Ref fc a) (x rt : Root) :
     a.inSub x rt = .inSub (RefOps.insAns fc.pa x rt).1 (RefOps.insAns fc.pa x rt).2 := by
@@ -89,7 +102,7 @@ theorem stepLive_sim (fc : FC) (a : Abs) (hh : fc.held = false) (I : FI fc) (hl 
     exact ⟨ref_processSlot fc a I r p s j f hok.2, fun _ => trivial⟩
   | block p rt s j f =>
     obtain ⟨pr', b, e, _, _⟩ := processBlock_spec fc.pa I.wf p rt s j f
-    have hb := ref_processBlock fc a I r p rt s j f pr' b e
+    have hb := ref_processBlock fc a I r p rt s j f pr' b e (fun hn => refersTo_false fc a r rt (hok.2.2 hn))
     show (match (finish (fc.processBlock p rt s j f) _).1 with | .live fc' => Ref fc' _ | _ => False) ∧
       (_ → (finish (fc.processBlock p rt s j f) Ans.bool).2 = Ans.bool (a.processBlock p rt s j f).2)
     unfold FC.processBlock
